@@ -194,6 +194,35 @@ Proof.
     exists (bl1 ++ bl2). eapply reach_trans; eauto.
 Qed.
 
+(* the same with the blocks exposed: each is what Frame::fill_from_samples makes of its chunk *)
+Lemma chunk_reach_block chn bytes_ps e chunk e' :
+  sample_encode_chunk encB p chn bytes_ps e chunk = Ok e' ->
+  exists b, fill_from_samples chn chunk = Ok b /\ reach e [b] e'.
+Proof.
+  unfold sample_encode_chunk. intros H.
+  apply bind_ok in H. destruct H as (bytes & _ & H). apply bind_ok in H. destruct H as (blk & Hfill & H).
+  exists blk. split; [exact Hfill|]. change [blk] with ([] ++ [blk]). eapply reach_enc; [|exact H]. apply reach_md5. apply reach_refl.
+Qed.
+
+Lemma chunks_reach_blocks chn bytes_ps : forall chunks e e',
+  fold_res (sample_encode_chunk encB p chn bytes_ps) e chunks = Ok e' ->
+  exists bl, Forall2 (fun c b => fill_from_samples chn c = Ok b) chunks bl /\ reach e bl e'.
+Proof.
+  induction chunks as [|c r IH]; intros e e' H; cbn [fold_res] in H.
+  - injection H as <-. exists []. split; [constructor|apply reach_refl].
+  - apply bind_ok in H. destruct H as (e1 & H1 & H2).
+    destruct (chunk_reach_block _ _ _ _ _ H1) as (b & Hfb & Hb). destruct (IH _ _ H2) as (bl & Hf2 & Hbl).
+    exists (b :: bl). split; [constructor; assumption|]. change (b :: bl) with ([b] ++ bl). eapply reach_trans; eauto.
+Qed.
+
+Lemma finalize_si e f : encoder_finalize md5 p e = Ok f ->
+  f_enc f = e /\ si_rate (f_si f) = si_rate (e_si e) /\ si_channels (f_si f) = si_channels (e_si e) /\
+  si_bps (f_si f) = si_bps (e_si e) /\ si_max_bs (f_si f) = si_max_bs (e_si e) /\ si_min_bs (f_si f) = si_min_bs (e_si e).
+Proof.
+  unfold encoder_finalize, encoder_finalize_gen. intros H.
+  repeat (apply bind_ok in H; destruct H as (? & _ & H)). injection H as <-. cbn. repeat split; reflexivity.
+Qed.
+
 (* C01 end to end for FlacSampleWriter: the file its run produces decodes to exactly the blocks handed to
    Encoder::encode (the writers area relates those to the PCM written: C08/C09) *)
 Theorem e2e_sample_writer wo ch total w chunks f :
